@@ -76,6 +76,40 @@ def run_r1(ctx, rule):
             return lo == ("un", "Neg", hi) and arg == v
 
         g = guards.holds(f, bb, is_contains)
+        if v[0] == "l" and v[1] in sy.multi:
+            # the converted variable is assigned in several places (a loop variable): every assignment must pass a range
+            # test of that variable before it can reach the conversion
+            c = cfg(f)
+            tests = []  # (switch block, target on success)
+            for sb in range(len(f.blocks)):
+                if f.blocks[sb]["cleanup"] or f.term(sb)["k"] != "switch":
+                    continue
+                for tgt, fa in guards.switch_edges(f, sb):
+                    if is_contains(fa):
+                        tests.append((sb, tgt))
+            cut = [sb for sb, _ in tests]
+            starts = [0] if (v[1] <= f.argc) else []
+            for d in sy.defs.get(v[1], []):
+                if d[0] == "stmt" and d[3]["k"] == "use":
+                    src = sy.operand(d[3]["a"])
+                    vv = v
+                    v = src  # (is_contains compares with v)
+                    pre = guards.holds(f, d[1], is_contains)
+                    v = vv
+                    if pre and (src[0] != "l" or src[1] not in sy.multi):
+                        continue  # `if range.contains(&next) { lit = next }`: checked under its own name before the copy
+                starts += f.succs(d[1]) if d[0] == "call" else [d[1]]
+            leak = None
+            for st0 in starts:
+                if bb in c.reachable_from(st0, avoid=cut) and st0 not in cut:
+                    leak = st0
+            for sb, tgt in tests:
+                for other in f.succs(sb):
+                    if other != tgt and bb in c.reachable_from(other, avoid=cut):
+                        leak = other
+            g = (tests[0][0], ("bool", ("c", 1), True)) if (tests and leak is None) else None
+            rule.check(bool(g), "%s/from_dimacs-range" % norm(f.id), "from_dimacs(%s): every assignment of %s passes (-limit..=limit).contains(&%s) before it can reach the conversion%s" % (sy.show(v), sy.show(v), sy.show(v), "" if g else " (an assignment reaches it unchecked)"), f.loc(bb))
+            continue
         rule.check(bool(g), "%s/from_dimacs-range" % norm(f.id), "from_dimacs(%s) only behind (-limit..=limit).contains(&%s)" % (sy.show(v), sy.show(v)), f.loc(bb))
     if n == 0:
         rule.bad("from_dimacs/sites", "anchor missing: no call of Dimacs::from_dimacs", kind="anchor-missing")
